@@ -1135,6 +1135,10 @@ func (c *Conn) validFrame(opcode MessageType, fin, res1, res2, res3, expectingFr
 	if expectingFragments && (opcode == TextMessage || opcode == BinaryMessage) {
 		return ErrFragmentsShouldNotHaveBinaryOrTextMessage
 	}
+	if !expectingFragments && opcode == FragmentMessage {
+		// a continuation frame without a message to continue.
+		return ErrInvalidFragmentMessage
+	}
 	return nil
 }
 
